@@ -144,6 +144,102 @@ def ob_lines(cx):
     cx.cover(kind)
 
 
+DF = "breezy.diff"
+
+
+def _opcodes(kinds):
+    """difflib-style opcodes for an alignment given as a list of 'context' / 'insert' / 'remove' items."""
+    ops = []
+    i = j = 0
+    k = 0
+    n = len(kinds)
+    while k < n:
+        if kinds[k] == "context":
+            k0 = k
+            while k < n and kinds[k] == "context":
+                k += 1
+            ops.append(("equal", i, i + (k - k0), j, j + (k - k0)))
+            i += k - k0
+            j += k - k0
+        else:
+            rem = ins = 0
+            while k < n and kinds[k] != "context":
+                if kinds[k] == "remove":
+                    rem += 1
+                else:
+                    ins += 1
+                k += 1
+            tag = "replace" if rem and ins else ("delete" if rem else "insert")
+            ops.append((tag, i, i + rem, j, j + ins))
+            i += rem
+            j += ins
+    return ops
+
+
+def ob_generate(cx):
+    """unified_diff_bytes (with the matcher replaced by the alignment of the edit script) -> iter_hunks -> patcher."""
+    import difflib
+    D = cx.mod(DF)
+    P = cx.mod(PT)
+    n = cx.choose("nlines", 0, cx.p("glines"))
+    kinds = [cx.pick("kind%d" % i, KINDS) for i in range(n)]
+    old, new = [], []
+    for i, kd in enumerate(kinds):
+        l = _line(cx, "l%d" % i)
+        if kd != "insert":
+            old.append(l)
+        if kd != "remove":
+            new.append(l)
+    ops = _opcodes(kinds)
+
+    class Matcher(difflib.SequenceMatcher):
+        def __init__(self, isjunk, a, b):
+            self.a, self.b = a, b
+
+        def get_opcodes(self):
+            return list(ops)
+    context = cx.pick("context", cx.p("contexts"))
+    lines = list(D.unified_diff_bytes(old, new, b"old", b"new", n=context, sequencematcher=Matcher))
+    changed = any(kd != "context" for kd in kinds)
+    if not changed:
+        cx.require(lines == [], "a diff was produced for identical texts")
+        cx.cover("identical")
+        cx.observe("lines", lines)
+        return
+    cx.require(len(lines) >= 3 and lines[0].startswith(b"--- ") and lines[1].startswith(b"+++ "), "diff header missing")
+    hunks = list(P.iter_hunks(iter(lines[2:])))
+    got = list(P.iter_patched_from_hunks(list(old), hunks))
+    cx.require(len(got) == len(new), "applying the generated diff gives %d lines, the new text has %d" % (len(got), len(new)))
+    for a, b in zip(got, new):
+        cx.require(a == b, "applying the generated diff does not give the new text")
+    patch = P.Patch(b"old", b"new")
+    patch.hunks = hunks
+    ins = sum(1 for kd in kinds if kd == "insert")
+    rem = sum(1 for kd in kinds if kd == "remove")
+    st = patch.stats_values()
+    cx.require(st[0] == ins and st[1] == rem, "statistics %r, changed lines (+%d, -%d)" % (st, ins, rem))
+    # the parsed diff re-serialises to a diff that parses to the same hunks
+    again_lines = []
+    for h in hunks:
+        again_lines.append(h.get_header())
+        again_lines.extend(l.as_bytes() for l in h.lines)
+    again = list(P.iter_hunks(iter(again_lines)))
+    cx.require(len(again) == len(hunks), "re-serialised diff has a different number of hunks")
+    for h1, h2 in zip(hunks, again):
+        cx.require((h1.orig_pos, h1.orig_range, h1.mod_pos, h1.mod_range) == (h2.orig_pos, h2.orig_range, h2.mod_pos, h2.mod_range),
+                   "hunk ranges changed by re-serialisation")
+        cx.require(len(h1.lines) == len(h2.lines), "hunk length changed by re-serialisation")
+        for l1, l2 in zip(h1.lines, h2.lines):
+            cx.require(type(l1) is type(l2) and l1.contents == l2.contents, "hunk line changed by re-serialisation")
+    cx.observe("got", got)
+    cx.observe("nh", len(hunks))
+    cx.cover("changed")
+    if len(hunks) > 1:
+        cx.cover("several_hunks")
+    if context == 0 and any(h.orig_range == 0 for h in hunks):
+        cx.cover("pure_insertion_ctx0")
+
+
 def obligations(tier):
     q = tier == "quick"
     p = dict(lline=1, lead=1 if q else 2, hlen=4 if q else 5, nhunks=1 if q else 2, lcontent=3 if q else 5)
@@ -156,4 +252,8 @@ def obligations(tier):
            bounds="one hunk of <= %(hlen)d lines, one perturbed old line inside the hunk" % p),
         Ob("line_format", ob_lines, [PT], p, to, 1, KINDS,
            bounds="line contents <= %(lcontent)d arbitrary bytes; positions/ranges < 10^5" % p),
+        Ob("generate_parse_apply", ob_generate, [PT, DF], dict(lline=1, glines=5 if q else 7, contexts=[0, 1, 3]), to,
+           3 if q else 1, ["identical", "changed", "several_hunks", "pure_insertion_ctx0"],
+           bounds="alignments of <= %d lines (each context/insert/remove) with symbolic 1-byte contents, context sizes "
+                  "0/1/3; the sequence matcher is replaced by the alignment (patiencediff is compiled)" % (5 if q else 7)),
     ]
